@@ -364,6 +364,71 @@ def real_convolve(c):
     return ["ret", farr(out), farr(d), farr(k)]
 
 
+def gen_process(rng):
+    """whole raster through the jitted closure `_process._process_numpy`, reached through the public functions
+    (numpy backend); MANHATTAN on integer coordinates keeps every distance exact"""
+    h, w = rng.randint(1, 5), rng.randint(1, 6)
+    sx, sy = rng.choice([1, 1, 2, 3]), rng.choice([1, 1, 2, 5])
+    x0, y0 = rng.randint(-3, 3), rng.randint(-3, 3)
+    xdir, ydir = rng.choice([1, 1, -1]), rng.choice([1, 1, -1])
+    xs = [x0 + xdir * sx * j for j in range(w)]
+    ys = [y0 + ydir * sy * i for i in range(h)]
+    p = rng.choice([0.1, 0.3, 0.6])
+    vals = [0.0 if rng.random() > p else float(rng.choice([1, 2, 3])) for _ in range(h * w)]
+    if rng.random() < 0.2:
+        vals[rng.randrange(h * w)] = rng.choice([NAN, INF])
+    img = np.array(vals).reshape(h, w)
+    targets = rng.choice([[], [], [1.0], [2.0, 3.0], [0.0], [9.0]])
+    md = rng.choice([None, None, 1.0, 2.0, 3.0, 5.0, 8.0, 2.5])
+    return dict(img=img.tolist(), xs=xs, ys=ys, targets=targets, md=md, mode=rng.choice([0, 0, 1, 2]))
+
+
+def line_process(c):
+    img = np.array(c["img"], dtype=np.float64)
+    h, w = img.shape
+    xg = np.tile(np.array(c["xs"], dtype=np.float64), h).reshape(h, w)
+    yg = np.repeat(np.array(c["ys"], dtype=np.float64), w).reshape(h, w)
+    md = INF if c["md"] is None else c["md"]
+    return (f"af.img={farr(img)} af.x_coords={farr(xg)} af.y_coords={farr(yg)} af.target_values={farr(c['targets'])} "
+            f"f.max_distance={fval(md)} i.distance_metric=2 i.process_mode={c['mode']}")
+
+
+def real_process(c):
+    import xarray as xr
+    px = mod("xrspatial.proximity")
+    img = np.array(c["img"], dtype=np.float64)
+    r = xr.DataArray(img.copy(), dims=["y", "x"], coords=dict(y=np.array(c["ys"], dtype=np.float64),
+                                                            x=np.array(c["xs"], dtype=np.float64)))
+    f = [px.proximity, px.allocation, px.direction][c["mode"]]
+    kw = dict(target_values=list(c["targets"]), distance_metric="MANHATTAN")
+    if c["md"] is not None:
+        kw["max_distance"] = c["md"]
+    out = np.asarray(f(r, **kw).data)
+    return ["ret", ("img_distance" if c["mode"] == 0 else "output_img", farr(out))]
+
+
+def gen_direction(rng):
+    g = lambda: float(rng.randint(-4, 4)) / rng.choice([1, 1, 2])
+    x1, y1 = g(), g()
+    if rng.random() < 0.4:
+        x2, y2 = (x1, g()) if rng.random() < 0.5 else (g(), y1)
+    else:
+        x2, y2 = g(), g()
+    return dict(x1=x1, x2=x2, y1=y1, y2=y2)
+
+
+def line_direction(c):
+    return f"f.x1={fval(c['x1'])} f.x2={fval(c['x2'])} f.y1={fval(c['y1'])} f.y2={fval(c['y2'])}"
+
+
+def real_direction(c):
+    f = mod("xrspatial.proximity")._calc_direction
+    return ["ret", fval(f(c["x1"], c["x2"], c["y1"], c["y2"]))]
+
+
+# programs whose numeric results go through libm / float32 rounding: compared within this relative tolerance
+TOL = {"calcDirection": 1e-6, "processNumpy": 1e-6}
+
 SPECS = {
     "cpuBin": (gen_cpu_bin, line_cpu_bin, real_cpu_bin),
     "strides": (gen_strides, line_strides, real_strides),
@@ -377,6 +442,8 @@ SPECS = {
     "reconstructPath": (gen_reconstruct, line_reconstruct, real_reconstruct),
     "proximityLine": (gen_prox_line, line_prox_line, real_prox_line),
     "convolve2d": (gen_convolve, line_convolve, real_convolve),
+    "processNumpy": (gen_process, line_process, real_process),
+    "calcDirection": (gen_direction, line_direction, real_direction),
 }
 
 
@@ -398,8 +465,20 @@ def canon(fields):
     return out
 
 
-def compare(real, reply):
-    """real: [ctl or '*', fields...]; reply: driver line"""
+def close_field(a, b, tol):
+    if ":" in a and ":" in b:
+        sa, ba = a.split(":", 1)
+        sb, bb = b.split(":", 1)
+        ta, tb = ba.split(","), bb.split(",")
+        return sa == sb and len(ta) == len(tb) and all(close_field(x, y, tol) for x, y in zip(ta, tb))
+    if a == "" or b == "":
+        return a == b
+    return common.close(common.untok(a), common.untok(b), rel=tol, abs_=tol)
+
+
+def compare(real, reply, prog=None, rets=None):
+    """real: [ctl or '*', fields...]; reply: driver line.  A field of `real` may be a pair (result name, value):
+    then only the result with that name is compared (programs that return one of several arrays)."""
     got = reply.split("|")
     if len(got) < 2 or got[1] != "ok":
         return False
@@ -409,7 +488,33 @@ def compare(real, reply):
             return False
     elif ctl != real[0]:
         return False
-    return canon(fields) == canon(real[1:])
+    want = real[1:]
+    if any(isinstance(f, tuple) for f in want):
+        names = rets or []
+        pairs = []
+        for nm, val in want:
+            if nm not in names:
+                return False
+            pairs.append((fields[names.index(nm)], val))
+        fields, want = [p[0] for p in pairs], [p[1] for p in pairs]
+    tol = TOL.get(prog)
+    if tol:
+        return len(fields) == len(want) and all(close_field(a, b, tol) for a, b in zip(fields, want))
+    return canon(fields) == canon(want)
+
+
+_RETS = {}
+
+
+def ret_names(prog):
+    """names of the results of a generated program, read from Gen/report.json"""
+    if not _RETS:
+        import json
+        import os
+        rep = json.load(open(os.path.join(common.LEAN, "XrsVerif", "Gen", "report.json")))
+        for k, v in rep.get("facts:IL.lean", {}).items():
+            _RETS[k] = [r[0] for r in v.get("rets", [])]
+    return _RETS.get(prog, [])
 
 
 def stream(r, progs, n, driver=None):
@@ -435,10 +540,10 @@ def stream(r, progs, n, driver=None):
             if rv[0] == "err":
                 ok = rep.startswith("err:")
             else:
-                ok = compare(rv, rep)
+                ok = compare(rv, rep, prog, ret_names(prog))
             if not ok:
                 bad += 1
-                r.disagree(f"il:{prog}", key, "|".join(rv)[:600], rep[:600])
+                r.disagree(f"il:{prog}", key, "|".join(str(x) for x in rv)[:600], rep[:600])
     return bad
 
 
@@ -449,7 +554,7 @@ def replay_case(case, driver=None):
     gen, line, real = SPECS[prog]
     rv = real(c)
     rep = driver.ask([f"il prog={prog} " + line(c)])[0]
-    return 0 if compare(rv, rep) else 1
+    return 0 if compare(rv, rep, prog, ret_names(prog)) else 1
 
 
 if __name__ == "__main__":
